@@ -94,24 +94,34 @@ class Arm:
             return _is_reader(self.R, t)
         return "reader" in self.param and strip(t) == ("arg", self.param["reader"])
 
-    def stores_back(self, call):
-        """`?`-propagated and the Continue payload assigned to the element variable (which the helper returns)"""
+    def stores_back(self, call, depth=0):
+        """the Ok value of `call` becomes the current element: assigned to the element variable, returned as
+        Ok(..)/directly, or handed as the element argument to a later mechanism call whose result is"""
         b = self.body
         if self.via is None:
-            return _result_becomes_root(self.R, call)
-        rl = self.param["root"]
-        for s in b.assigns():
-            if s.node["place"]["l"] == rl and not s.node["place"]["p"] and s.node["rv"]["k"] == "use":
-                org = b.origins(s.node["rv"]["op"], transparent=lambda n: cname(n) == "std::ops::Try::branch")
-                if ("call", call) in org:
-                    return True
-        # or returned directly: Ok(f(..)?) / f(..)
-        for s in b.assigns():
-            if s.node["place"]["l"] == 0 and s.node["rv"]["k"] == "agg" and s.node["rv"].get("variant") == "Ok":
-                if ("call", call) in b.origins(s.node["rv"]["ops"][0], transparent=lambda n: cname(n) == "std::ops::Try::branch"):
-                    return True
-        if call.node["dest"]["l"] == 0:
-            return True
+            if _result_becomes_root(self.R, call):
+                return True
+        else:
+            rl = self.param["root"]
+            for s in b.assigns():
+                if s.node["place"]["l"] == rl and not s.node["place"]["p"] and s.node["rv"]["k"] == "use":
+                    org = b.origins(s.node["rv"]["op"], transparent=lambda n: cname(n) == "std::ops::Try::branch")
+                    if ("call", call) in org:
+                        return True
+            for s in b.assigns():
+                if s.node["place"]["l"] == 0 and s.node["rv"]["k"] == "agg" and s.node["rv"].get("variant") == "Ok":
+                    if ("call", call) in b.origins(s.node["rv"]["ops"][0], transparent=lambda n: cname(n) == "std::ops::Try::branch"):
+                        return True
+            if call.node["dest"]["l"] == 0 and not call.node["dest"]["p"]:
+                return True
+        if depth < 3:
+            for c2 in b.calls():
+                if c2 == call or not c2.node["callee"].get("local"):
+                    continue
+                for a in c2.node["args"]:
+                    if arg_ty(b, a).get("adt") == "element::Element" and arg_ty(b, a).get("refs") == 0:
+                        if ("call", call) in b.origins(a, transparent=lambda n: cname(n) == "std::ops::Try::branch") and self.stores_back(c2, depth + 1):
+                            return True
         return False
 
     def returns_root(self):
